@@ -78,8 +78,15 @@ def impl_obs(c, o):
         return [-1]
     if c["mode"] in ("pair", "raw"):
         # frames of one round grouped by stream (kind, id), per-stream order kept (python's sort is stable)
-        return [[ob[0], sorted(ob[1], key=lambda f: f[0] % 16384), sorted(ob[2], key=lambda f: f[0] % 16384)] + ob[3:]
-                for ob in o["obs"]]
+        # in the round in which a run ends with an error, hand-overs and written frames race with the cancellation of
+        # the stream tasks (tokio's randomised select): only reads and skips of that round are compared
+        out = []
+        for ob in o["obs"]:
+            if ob[5]:
+                out.append([[e for e in ob[0] if not (len(e) == 2 and e[1] == 0)], [], []] + ob[3:])
+            else:
+                out.append([ob[0], sorted(ob[1], key=lambda f: f[0] % 16384), sorted(ob[2], key=lambda f: f[0] % 16384)] + ob[3:])
+        return out
     return o["obs"]
 
 
@@ -855,7 +862,8 @@ def run(rep):
                                             "ops: opens (both ends, one end only, over the limit), writes 0-3000 bytes (big cases up to 70000), flushes, reads 0-5000 bytes (big: 100000), "
                                             "drops of either half in any order, ~2% invalid ops; raw: arbitrary frames (any kind incl. the unassigned one, ids in and out of range, "
                                             "truncated payloads, single bytes, close) against one real Mux whose application opens/reads/drops; raw-flood: OPEN then DATA floods, "
-                                            "application never reads; header: all 2^16 values + 384 (kind,kind,id) triples; verify: boundary configs"},
+                                            "application never reads; raw-ctlflood: after one OPEN, 2000 (quick) / 5000 OPEN, CLOSE, OPEN+CLOSE, CLOSE+OPEN+DATA(0), OPEN+DATA(1) frames at a stream "
+                                            "nobody accepts / nobody connects / whose reader never reads, read_frame_count 3..12 (predicate: queued frames taken off the transport <= read_frame_count + 1); header: all 2^16 values + 384 (kind,kind,id) triples; verify: boundary configs"},
         "samples": [{"case": cases[i], "impl": impl_obs(cases[i], outs[i]), "model_obs": samp.get(i)} for i in sample_ids if i < len(cases)],
         "correspondence_mismatches": len(mm), "predicate_failures": len(pred_fail),
         "partial": "Proved (closed, no axioms). Components: header layout for all 2^16 values; totality of the frame-kind match; both sides compute the same "
